@@ -82,6 +82,12 @@ theorem rd32_take (b : Bytes) (n : Nat) (h : 4 ≤ n) : rd32 (b.take n) = rd32 b
   have h3 : 3 < n := by omega
   simp [h0, h1, h2, h3]
 
+/-- `n` zero bytes (kept as a definition so that `simp` does not expand it into a literal) -/
+def zeros (n : Nat) : Bytes := List.replicate n 0
+
+@[simp] theorem zeros_length (n : Nat) : (zeros n).length = n := by simp [zeros]
+theorem zeros_succ (n : Nat) : zeros (n + 1) = 0 :: zeros n := by simp [zeros, List.replicate_succ]
+
 /-- Hex rendering used by the line protocol. -/
 def hexDigit (n : Nat) : Char :=
   if n < 10 then Char.ofNat (48 + n) else Char.ofNat (87 + n)
